@@ -80,7 +80,7 @@ def main(tier, seed, replay=None):
     # the success table of the linked optimizer crate, regenerated before the proofs are checked
     tab = run_harness(binp, "termination", [{"id": 0}], workdir, shards=1, tag="term")[0]["head"]
     translator.gen_termination(tab)
-    proof_obligations(run, "C04")
+    proof_obligations(run, "C04", extra_pins=("E2E",))
     n = 140 if tier == "quick" else 3000
     cases = [gen_fit_case(rng, i, quant=(10 if i % 3 == 0 else None)) for i in range(n)]
     # fits over exactly rank-deficient bases with a user threshold (truncation active along the whole fit) and fits with a
